@@ -37,7 +37,9 @@ package pod_info
 //@   loop 1
 //@     invariant old(pi.IsLegacyMIGtask) ==> pi.IsLegacyMIGtask
 //@     invariant !pi.IsLegacyMIGtask ==> gpuUnchanged(pi)
+//@     invariant pi.ResReq.migResources == old(pi.ResReq.migResources) || fresh(pi.ResReq.migResources)   // added by helper "cache"
 //@   ensures old(pi.IsLegacyMIGtask) ==> pi.IsLegacyMIGtask
+//@   ensures [migMapOwn] pi.ResReq.migResources == old(pi.ResReq.migResources) || fresh(pi.ResReq.migResources)   // added by helper "cache"
 //@   ensures [untouched-without-mig-annotation] !pi.IsLegacyMIGtask ==> gpuUnchanged(pi)
 //@ end
 
@@ -68,6 +70,7 @@ package pod_info
 // C12 "charge GPU groups in every snapshot": while a BindRequest that selected GPU groups is alive, the
 // snapshot charges exactly those groups - whatever gpu-group labels the pod carries at that moment (the
 // binder labels one group per ReserveGpuDevice call, and a failed attempt may leave a stale label).
+//@   ensures [migMapOwn] pi.ResReq.migResources == old(pi.ResReq.migResources) || fresh(pi.ResReq.migResources)   // added by helper "cache"
 //@   ensures [live-bindrequest-groups-win] bindRequest != nil && len(bindRequest.BindRequest.Spec.SelectedGPUGroups) > 0 ==> pi.GPUGroups == bindRequest.BindRequest.Spec.SelectedGPUGroups
 //@   ensures [agree-fraction] admitted(pi.Pod) && resources.hasFrac(pi.Pod) && !pi.IsLegacyMIGtask ==> pi.ResourceRequestType == RequestTypeFraction && isfinite(pi.ResReq.portion) && pi.ResReq.portion == resources.pfVal(resources.fracStr(pi.Pod)) && fval(pi.ResReq.portion) > 0.0 && fval(pi.ResReq.portion) < 1.0 && pi.ResReq.gpuMemory == 0
 //@   ensures [agree-memory] admitted(pi.Pod) && resources.hasMem(pi.Pod) && !pi.IsLegacyMIGtask ==> pi.ResourceRequestType == RequestTypeGpuMemory && pi.ResReq.gpuMemory == resources.piVal(resources.memStr(pi.Pod)) && pi.ResReq.gpuMemory >= 1 && pi.ResReq.portion == 0.0
@@ -118,6 +121,7 @@ package pod_info
 //@   ensures result.Status == pi.Status && result.Pod == pi.Pod && result.NodeName == pi.NodeName
 //@   ensures result.ResourceRequestType == pi.ResourceRequestType && result.ResourceReceivedType == pi.ResourceReceivedType && result.IsVirtualStatus == pi.IsVirtualStatus && result.IsLegacyMIGtask == pi.IsLegacyMIGtask
 //@   ensures len(result.GPUGroups) == len(pi.GPUGroups) && (forall i int :: 0 <= i && i < len(pi.GPUGroups) ==> result.GPUGroups[i] == pi.GPUGroups[i])
+//@   ensures [stmt2-groupsShared] result.GPUGroups == pi.GPUGroups   // added by helper "stmt2": the clone shares the GPU-group slice (same array, offset, length)
 //@   ensures result.ResReq != nil && result.AcceptedResource != nil && result.ResReq != pi.ResReq && result.AcceptedResource != pi.AcceptedResource
 //@   ensures result.VectorMap == pi.VectorMap
 //@   ensures [resreq-copied] result.ResReq.milliCpu == pi.ResReq.milliCpu && result.ResReq.memory == pi.ResReq.memory && result.ResReq.count == pi.ResReq.count && result.ResReq.portion == pi.ResReq.portion && result.ResReq.gpuMemory == pi.ResReq.gpuMemory
@@ -161,3 +165,99 @@ package pod_info
 // slices handed around by the allocate path are not rewritten in place
 //@ stable PodInfo.ResourceRequestType
 //@ stable slicetype []*PodInfo
+
+// ---- added by helper "cache" ----
+// Snapshot construction of a task (C12 C10 C14).
+
+//@ func (k8s.io/apimachinery/pkg/types.NamespacedName).String
+//@   props C12 C10
+//@   trusted
+//@   note external (k8s.io/apimachinery/pkg/types): returns Namespace + "/" + Name; assumed read-only
+//@   pure
+//@ end
+
+// the pod-group annotation of the pod ("" when absent or empty)
+//@ define podGroupOf(pod *v1.Pod) string = ite(commonconstants.PodGroupAnnotationForPod in pod.Annotations && len(pod.Annotations[commonconstants.PodGroupAnnotationForPod]) != 0, pod.Annotations[commonconstants.PodGroupAnnotationForPod], "")
+
+//@ func getPodGroupID
+//@   props C10 C14
+//@   requires pod != nil
+//@   pure
+//@   ensures result == podGroupOf(pod)
+//@ end
+
+// copy relation of the generated deep copy of an allocation: copiedFrom(c) names the object c was copied from
+//@ ghost copiedFrom(a *resourceapi.AllocationResult) *resourceapi.AllocationResult
+//@ func (*k8s.io/api/resource/v1.AllocationResult).DeepCopy
+//@   props C12 C10
+//@   trusted
+//@   note generated deepcopy (k8s.io/api, no body loaded): nil for nil, otherwise a new object; the ghost copiedFrom records its source (the content of the copy is not modelled)
+//@   ensures (result == nil) == (recv == nil)
+//@   ensures result != nil ==> fresh(result) && copiedFrom(result) == recv
+//@ end
+
+// a is the snapshot's copy of allocation b of the bind request: both nil, or a is a deep copy of b
+//@ define allocCopy(a *resourceapi.AllocationResult, b *resourceapi.AllocationResult) bool = (a == nil && b == nil) || (a != nil && b != nil && copiedFrom(a) == b)
+// the bind request names an allocation for pod claim k
+//@ define brAllocates(br *bindrequest_info.BindRequestInfo, k string) bool = br != nil && (exists i int :: 0 <= i && i < len(br.BindRequest.Spec.ResourceClaimAllocations) && br.BindRequest.Spec.ResourceClaimAllocations[i].Name == k)
+// x is a copy of one of the allocations the bind request names for pod claim k
+//@ define brAllocationOf(br *bindrequest_info.BindRequestInfo, k string, x *resourceapi.AllocationResult) bool = exists i int :: 0 <= i && i < len(br.BindRequest.Spec.ResourceClaimAllocations) && br.BindRequest.Spec.ResourceClaimAllocations[i].Name == k && allocCopy(x, br.BindRequest.Spec.ResourceClaimAllocations[i].Allocation)
+
+// C12 "every snapshot charges the pod's resources (including GPU groups and claimed devices) to the selected node":
+// DRA claims of the pod as the snapshot sees them.  For every claim reference of the pod that made it into the
+// result (key = podClaim.Name): when the live BindRequest names an allocation for that reference (ResourceClaimAllocation.
+// Name "corresponds to the podResourceClaim.Name"), the snapshot entry carries (a copy of) THAT allocation - the
+// devices promised by the bind request - and not the claim's current status.  Result: a new map with new entries;
+// nothing that existed before is written.
+//@ func resourceClaimInfoFromPodClaims
+//@   props C10 C12
+//@   requires pod != nil && resource_info.claimsNonNil(draPodClaims)
+//@   requires bindRequest != nil ==> bindRequest.BindRequest != nil
+//@   loop 1
+//@     invariant 0 - 1 <= rangeindex && rangeindex < len(bindRequest.BindRequest.Spec.ResourceClaimAllocations)
+//@     invariant bindingRequestClaimUpdates != nil && fresh(bindingRequestClaimUpdates)
+//@     invariant resourceClaimInfo != nil && fresh(resourceClaimInfo) && resourceClaimInfo != bindingRequestClaimUpdates
+//@     invariant forall k in bindingRequestClaimUpdates :: bindingRequestClaimUpdates[k] != nil && fresh(bindingRequestClaimUpdates[k])
+//@     invariant forall k in bindingRequestClaimUpdates :: brAllocationOf(bindRequest, k, bindingRequestClaimUpdates[k].Allocation)
+//@     invariant forall i int :: 0 <= i && i <= rangeindex ==> bindRequest.BindRequest.Spec.ResourceClaimAllocations[i].Name in bindingRequestClaimUpdates
+//@     invariant forall k string :: !(k in resourceClaimInfo)
+//@   loop 2
+//@     invariant 0 - 1 <= rangeindex && rangeindex < len(pod.Spec.ResourceClaims)
+//@     invariant resourceClaimInfo != nil && fresh(resourceClaimInfo) && resourceClaimInfo != bindingRequestClaimUpdates
+//@     invariant forall k in bindingRequestClaimUpdates :: bindingRequestClaimUpdates[k] != nil && fresh(bindingRequestClaimUpdates[k])
+//@     invariant forall k in resourceClaimInfo :: resourceClaimInfo[k] != nil && fresh(resourceClaimInfo[k])
+//@     invariant forall k1 in resourceClaimInfo :: forall k2 in bindingRequestClaimUpdates :: resourceClaimInfo[k1] != bindingRequestClaimUpdates[k2]
+//@     invariant forall a *schedulingv1alpha2.ResourceClaimAllocation :: a != nil && old(allocated(a)) ==> a.Allocation == old(a.Allocation)
+//@     invariant forall k in bindingRequestClaimUpdates :: brAllocationOf(bindRequest, k, bindingRequestClaimUpdates[k].Allocation)
+//@     invariant bindRequest != nil ==> (forall i int :: 0 <= i && i < len(bindRequest.BindRequest.Spec.ResourceClaimAllocations) ==> bindRequest.BindRequest.Spec.ResourceClaimAllocations[i].Name in bindingRequestClaimUpdates)
+//@     invariant forall k in resourceClaimInfo :: k in bindingRequestClaimUpdates ==> resourceClaimInfo[k].Allocation == bindingRequestClaimUpdates[k].Allocation
+//@   ensures [newMap] result0 != nil && fresh(result0)
+//@   ensures [newEntries] forall k in result0 :: result0[k] != nil && fresh(result0[k])
+//@   ensures [claimedDevices] forall k in result0 :: brAllocates(bindRequest, k) ==> brAllocationOf(bindRequest, k, result0[k].Allocation)
+//@ end
+
+// C12 "From the moment the scheduler creates a BindRequest until it reaches a terminal outcome, every snapshot charges
+// the pod's resources (including GPU groups and claimed devices) to the selected node": the task the snapshot builds
+// for a pod with a live (= passed in, see GetBindRequestForPod) BindRequest has the status of getTaskStatus (Binding
+// for a pending, unbound, undeleted pod), is placed on the request's SelectedNode when the pod has no node yet, and
+// carries the request's SelectedGPUGroups.  "...terminally failed requests are deleted and their pods become
+// schedulable again": without a request (bindRequest == nil) the same pod is Pending/Gated on no node.
+// The result is a NEW task whose request objects are new as well (taskWF of node_info: what AddTask needs).
+//@ func NewTaskInfoWithBindRequest
+//@   props C12 C10 C14 C01
+//@   ieee
+//@   requires pod != nil && vectorMap != nil && resource_info.claimsNonNil(draPodClaims)
+//@   requires bindRequest != nil ==> bindRequest.BindRequest != nil
+//@   assume resources.piVal("") == 0 && resources.pfVal("") == 0.0
+//@   note strconv: ParseInt("")/ParseFloat("") return value 0 with ErrSyntax (documented); needed to use the contract of updatePodAdditionalFields, which carries the same assumption
+//@   fresh
+//@   ensures [identity] result.Pod == pod && result.UID == pod.UID && result.Name == pod.Name && result.Namespace == pod.Namespace && result.Job == podGroupOf(pod)
+//@   ensures [status] result.Status == taskStatusOf(pod, bindRequest != nil)
+//@   ensures [selectedNode] result.NodeName == ite(pod.Spec.NodeName == "" && bindRequest != nil, bindRequest.BindRequest.Spec.SelectedNode, pod.Spec.NodeName)
+//@   ensures [selectedGroups] bindRequest != nil && len(bindRequest.BindRequest.Spec.SelectedGPUGroups) > 0 ==> result.GPUGroups == bindRequest.BindRequest.Spec.SelectedGPUGroups
+//@   ensures [request] result.BindRequest == bindRequest
+//@   ensures [realStatus] !result.IsVirtualStatus
+//@   ensures [wf] result.ResReq != nil && fresh(result.ResReq) && result.ResReq.scalarResources != nil && fresh(result.ResReq.scalarResources) && result.AcceptedResource != nil && fresh(result.AcceptedResource) && result.AcceptedResource.scalarResources != nil && fresh(result.AcceptedResource.scalarResources) && result.VectorMap == vectorMap
+//@   ensures [wfMig] (result.ResReq.migResources == nil || fresh(result.ResReq.migResources)) && fresh(result.AcceptedResource.migResources)
+//@   ensures [onePod] result.ResReq.scalarResources[resource_info.PodsResourceName] == 1
+//@ end
